@@ -37,6 +37,7 @@ import (
 	"strings"
 	"time"
 
+	"github.com/KevoDB/kevo/pkg/compaction"
 	"github.com/KevoDB/kevo/pkg/config"
 	"github.com/KevoDB/kevo/pkg/engine"
 	"github.com/KevoDB/kevo/pkg/sstable"
@@ -145,6 +146,8 @@ type c12run struct {
 	nConflict            int // compactions whose inputs held >= 2 versions of a key or a deletion marker
 	nRetired             int
 	kinds                map[string]int      // executed tasks by selection rule
+	wroteEmptyKey        bool                // the case wrote the empty key
+	emptyKeyTable        string              // a flushed table that holds the empty key and reads back without a single entry
 	cache                map[string]*c12file // every table file ever seen, by name (the running storage manager keeps reading files a compaction has deleted)
 	reopenedAfterCompact bool
 }
@@ -274,6 +277,12 @@ func (r *c12run) newFiles(pre, post []*c12file) []*c12file {
 func (r *c12run) afterFlush(pre []*c12file) {
 	post := r.dump(false)
 	for _, f := range r.newFiles(pre, post) {
+		if r.wroteEmptyKey && len(f.entries) == 0 && f.size > 0 && r.emptyKeyTable == "" {
+			// block.Iterator.Valid() requires len(key) > 0: positioned on the empty key (always the
+			// first entry) the iterator reports "invalid", so the whole table iterates as empty
+			r.emptyKeyTable = f.name
+			r.out("NOTE flushed table " + f.name + " holds the empty key and iterates as empty")
+		}
 		g := make([]int, len(f.entries))
 		for i := range f.entries {
 			en := &f.entries[i]
@@ -519,6 +528,9 @@ func (r *c12run) checkGet(k []byte, v []byte, err error, when string) {
 	}
 	class := ""
 	switch {
+	case newest == nil && r.emptyKeyTable != "" && r.damage[string(k)] == "" && explains(firstE):
+		class = "table_with_empty_key_reads_empty"
+		msg += " (table " + r.emptyKeyTable + " held the empty key: it iterates as empty, a compaction of it writes nothing and deletes it)"
 	case newest == nil && r.damage[string(k)] != "" && explains(firstE):
 		class = r.damage[string(k)]
 		msg += " (the newest version was destroyed by an earlier compaction: " + class + ")"
@@ -549,6 +561,9 @@ func (r *c12run) sweep(when string) {
 func (r *c12run) ack(ops []bop) {
 	seq := lastSeq(r.e)
 	for _, o := range ops {
+		if len(o.k) == 0 {
+			r.wroteEmptyKey = true
+		}
 		w := c12write{key: o.k, tomb: o.del}
 		if !o.del {
 			w.val = append([]byte{}, o.v...)
@@ -598,6 +613,130 @@ func (r *c12run) reopen(retire bool, interval int64) bool {
 		return false
 	}
 	return true
+}
+
+// c12names lists the table files of the directory (names only).
+func c12names(dir string) []string {
+	ents, _ := os.ReadDir(filepath.Join(dir, "sst"))
+	var n []string
+	for _, en := range ents {
+		if !en.IsDir() && strings.HasSuffix(en.Name(), ".sst") {
+			n = append(n, en.Name())
+		}
+	}
+	return n
+}
+
+// c12realSelects asks the REAL strategy (a fresh TieredCompactionStrategy on the directory)
+// whether it would select a task now: the criterion for "the worker has nothing left to do".
+func c12realSelects(dir string) bool {
+	cfg, err := config.LoadConfigFromManifest(dir)
+	if err != nil {
+		return false
+	}
+	st := compaction.NewTieredCompactionStrategy(cfg, cfg.SSTDir, nil)
+	defer st.Close()
+	if err := st.LoadSSTables(); err != nil {
+		return true // caught mid-cycle: look again later
+	}
+	task, err := st.SelectCompaction()
+	return err != nil || task != nil
+}
+
+// watchWorker lets the background compaction worker run (CompactionInterval = 1 s) and accounts
+// for its cycles one by one. The worker is stopped at verifhook site sst.finish.before_rename
+// (an output table is complete but not yet visible; no flush runs meanwhile), so the directory
+// is quiet while the harness looks at it: a cycle is complete when files of the directory
+// seen before it are gone. Returns the number of cycles that executed a task.
+func (r *c12run) watchWorker(op int) int {
+	arrive := make(chan struct{})
+	pass := make(chan struct{})
+	done := make(chan struct{})
+	verifhook.OnHit(func(site string, n int) {
+		if site != "sst.finish.before_rename" {
+			return
+		}
+		select {
+		case arrive <- struct{}{}:
+			select {
+			case <-pass:
+			case <-done:
+			}
+		case <-done:
+		}
+	})
+	defer func() {
+		close(done)
+		verifhook.OnHit(nil)
+	}()
+	missing := func(pre []*c12file) bool {
+		have := map[string]bool{}
+		for _, n := range c12names(r.dir) {
+			have[n] = true
+		}
+		for _, f := range pre {
+			if !have[f.name] {
+				return true
+			}
+		}
+		return false
+	}
+	settle := func() { // the cleanup of a finished cycle removes the inputs one by one
+		last := ""
+		for k := 0; k < 40; k++ {
+			cur := strings.Join(c12names(r.dir), ";")
+			if cur == last {
+				return
+			}
+			last = cur
+			time.Sleep(60 * time.Millisecond)
+		}
+	}
+	cycles := 0
+	pre := r.dump(false)
+	account := func() {
+		cycles++
+		r.out("A cycle")
+		r.afterCompaction(pre, fmt.Sprintf("background compaction cycle %d (op %d)", cycles, op))
+		pre = r.dump(false)
+	}
+	deadline := time.Now().Add(60 * time.Second)
+	for time.Now().Before(deadline) && cycles < 30 {
+		select {
+		case <-arrive:
+			// the worker is parked before publishing an output: if inputs of the cycle we were
+			// following are gone, that cycle is over and this output starts the next one
+			if missing(pre) {
+				account()
+			}
+			pass <- struct{}{}
+		case <-time.After(300 * time.Millisecond):
+			if missing(pre) {
+				settle()
+				// outputs of the finished cycle are all visible (the worker publishes them before it
+				// deletes the inputs); a new cycle cannot publish without stopping at the gate
+				select {
+				case <-arrive:
+					account()
+					pass <- struct{}{}
+				default:
+					account()
+				}
+				continue
+			}
+			if strings.Join(c12names(r.dir), ";") == func() string {
+				var n []string
+				for _, f := range pre {
+					n = append(n, f.name)
+				}
+				return strings.Join(n, ";")
+			}() && !c12realSelects(r.dir) {
+				return cycles
+			}
+		}
+	}
+	r.out("NOTE background worker still busy at the deadline")
+	return cycles
 }
 
 // c12wellFormed: a shrinking step may cut a batch from its lines; such a candidate is not a
@@ -768,34 +907,7 @@ loop:
 				break loop
 			}
 			out("O last=" + num(lastSeq(r.e)))
-			cycles := 0
-			pre := r.dump(false)
-			quiet := 0
-			for quiet < 5 && cycles < 20 { // 5 polls of 500 ms without a change = two ticks
-				time.Sleep(500 * time.Millisecond)
-				names := func(fs []*c12file) string {
-					s := ""
-					for _, f := range fs {
-						s += f.name + ";"
-					}
-					return s
-				}
-				cur, err := c12readDir(dir)
-				if err != nil { // caught the worker between writing and deleting: look again
-					continue
-				}
-				if names(cur) == names(pre) {
-					quiet++
-					continue
-				}
-				// let the cycle finish (outputs written, inputs deleted), then account for it
-				time.Sleep(150 * time.Millisecond)
-				quiet = 0
-				cycles++
-				out("A cycle")
-				r.afterCompaction(pre, fmt.Sprintf("background compaction cycle %d (op %d)", cycles, i))
-				pre = r.dump(false)
-			}
+			cycles := r.watchWorker(i)
 			out(fmt.Sprintf("A quiet cycles=%d", cycles))
 			if !r.reopen(false, 3600) {
 				aborted = true
